@@ -12,23 +12,22 @@ structure Signable (w : World) (tx : Tx) : Prop where
   noCode : (w.acct tx.sender).code = false
   fresh : tx.recipient = none → tx.newAddr ≠ tx.sender
 
-/-- What the conservation proof actually uses of the sender — `Signable` cut down to the one transaction
-shape each clause is needed for (each clause is *necessary*: `Props/C01.lean` has a model-level witness
-of a lost or minted balance when it is dropped):
-* `notName`: a governance tx *to aergo.name* is not sent *by* aergo.name (sender and receiver would be two
-  records of one account, both `PutState`d by the name contract's code);
-* `noCode`: a tx whose recipient is its own sender is not sent by a contract (the VM would run on two
-  records of one account);
+/-- What the conservation proof still uses of the sender — `Signable` cut down to the transaction shape each
+clause is needed for. Since `executeTx` uses the sender's record as the receiver's whenever the resolved
+recipient is the sender's own account (fix 343afa85), a transaction of a contract account or of aergo.name to
+itself needs no assumption any more; what is left:
+* `notName`: a governance tx *to aergo.name* is not sent *by* aergo.name;
+* `noCode`: a REDEPLOY whose recipient is its own sender (the one case that still works on two records of one
+  account) is not sent by a contract;
 * `fresh`: the address of a contract the tx deploys is not the sender's own.
-All three are facts about a *signed* transaction (C04): the account of a signed tx is the address of a
-secp256k1 key, while "aergo.name" is a 10-byte name, a contract address is a hash with prefix 0x0C. -/
+All three are facts about a *signed* transaction (C04). -/
 structure SenderOK (w : World) (tx : Tx) : Prop where
   notName : tx.type = .governance → tx.recipient = some aName → tx.sender ≠ aName
-  noCode : tx.recipient = some tx.sender → (w.acct tx.sender).code = false
+  noCode : tx.type = .redeploy → tx.recipient = some tx.sender → (w.acct tx.sender).code = false
   fresh : tx.recipient = none → tx.newAddr ≠ tx.sender
 
 theorem Signable.senderOK {w : World} {tx : Tx} (h : Signable w tx) : SenderOK w tx :=
-  ⟨fun _ _ => h.notName, fun _ => h.noCode, h.fresh⟩
+  ⟨fun _ _ => h.notName, fun _ _ => h.noCode, h.fresh⟩
 
 theorem resetAccount_some {cp : Copy} {fee : Nat} {n : Option Nat} {a : Acct}
     (h : resetAccount cp (some fee) n = some a) : fee ≤ cp.old.bal ∧ a.bal = cp.old.bal - fee := by
@@ -239,6 +238,143 @@ theorem finishVm_self_total {c : Ctx} {w : World} {bp : Nat} {tx : Tx} {snd rcv 
     omega
 
 
+/-! ### `receiver = sender`: one live record -/
+
+theorem runXfers_own {id : Addr} {xs : List (Addr × Nat)} :
+    ∀ {snd rcv : Acct} {w : World} {third : Bool} {sa ra : Acct} {w' : World} {t' : Bool},
+      runXfers id id snd rcv w third xs = .ok sa ra w' t' → sa = snd := by
+  induction xs with
+  | nil =>
+    intro snd rcv w third sa ra w' t' h
+    simp [runXfers] at h
+    exact h.1.symm
+  | cons x xs ih =>
+    obtain ⟨t, amt⟩ := x
+    intro snd rcv w third sa ra w' t' h
+    unfold runXfers at h
+    by_cases h1 : t = id
+    · simp only [h1, if_true] at h
+      exact ih h
+    · simp only [h1, if_false] at h
+      by_cases h2 : rcv.bal < amt
+      · simp [h2] at h
+      · simp only [h2, if_false] at h
+        exact ih h
+
+/-- the VM on ONE record (`receiver = sender`): the sender-side copy of the result is untouched, everything
+the call did is in the receiver-side copy -/
+theorem vmCall_own {w : World} {tx : Tx} {acc : Copy} {base : Nat} {o : ExecOut}
+    (h : vmCall w tx acc acc true base = o) : o.snd.cur = acc.cur := by
+  unfold vmCall at h
+  simp only [] at h
+  split at h
+  · subst h; rfl
+  · rename_i rcv' pend hpre
+    have hr1 : rcv'.id = acc.id := by
+      split at hpre
+      · split at hpre
+        · cases hpre
+        · cases hpre; rfl
+      · split at hpre
+        · cases hpre; rfl
+        · cases hpre
+    split at h
+    · subst h; rfl
+    · split at h
+      · subst h; rfl
+      · subst h; rfl
+    · subst h; rfl
+    · subst h; rfl
+    · split at h
+      · subst h; rfl
+      · rename_i sa ra w' t' hx
+        rw [hr1] at hx
+        have := runXfers_own hx
+        subst h
+        simp only [if_true]
+        split <;> simpa using this
+/-- the runtime-error branch on ONE record conserves Σ + BpReward when the VM left the world as it was -/
+theorem runtimeBranch_own_total {w : World} {bp : Nat} {tx : Tx} {obj : Copy} {fee : Nat} {leak dirty : Bool}
+    (ho : obj.old = w.acct obj.id) :
+    (runtimeBranch w w bp tx obj obj fee leak dirty).w.total + (runtimeBranch w w bp tx obj obj fee leak dirty).bp
+      = w.total + bp := by
+  have hb : obj.old.bal = w.bal obj.id := by rw [ho]; rfl
+  unfold runtimeBranch
+  simp only [ne_eq, or_true, if_true]
+  split
+  · rfl
+  · rename_i a ha
+    have := resetAccount_some ha
+    have h1 := total_put w obj.id a
+    simp only []
+    omega
+
+theorem runtimeBranch_own_leak {w0 w : World} {bp : Nat} {tx : Tx} {obj : Copy} {fee : Nat} {dirty : Bool}
+    (hl : (runtimeBranch w0 w bp tx obj obj fee true dirty).leak = false) :
+    (runtimeBranch w0 w bp tx obj obj fee true dirty).w = w0 ∧ (runtimeBranch w0 w bp tx obj obj fee true dirty).bp = bp := by
+  unfold runtimeBranch at hl ⊢
+  simp only [ne_eq, or_true, if_true] at hl ⊢
+  split
+  · exact ⟨rfl, rfl⟩
+  · rename_i a ha
+    rw [ha] at hl
+    simp at hl
+
+/-- `finishOwn` conserves Σ + BpReward, given what validation guarantees about the base fee -/
+theorem finishOwn_total {c : Ctx} {w : World} {bp : Nat} {tx : Tx} {acc : Copy} {isFD : Bool} {st : Status}
+    (hc : acc.cur = w.acct acc.id) (ho : acc.old = w.acct acc.id) (hcov : txBaseFee c tx.payloadLen ≤ acc.cur.bal)
+    (hl : (finishOwn w bp tx st (executeOwn c w tx acc isFD)).leak = false) :
+    (finishOwn w bp tx st (executeOwn c w tx acc isFD)).w.total + (finishOwn w bp tx st (executeOwn c w tx acc isFD)).bp
+      = w.total + bp := by
+  have hb : acc.cur.bal = w.bal acc.id := by rw [hc]; rfl
+  generalize hoo : executeOwn c w tx acc isFD = o at hl ⊢
+  -- what executeOwn guarantees
+  have key : o.rcv.id = acc.id ∧ o.rcv.old = acc.old ∧ o.w.acct acc.id = w.acct acc.id ∧
+      (o.err = some .runtime → o.leak = false → o.w = w) ∧
+      (o.err = none → o.w.total + o.rcv.cur.bal = w.total + acc.cur.bal ∧ o.fee ≤ o.rcv.cur.bal) := by
+    unfold executeOwn at hoo
+    simp only [] at hoo
+    split at hoo
+    · subst hoo; simp
+    · subst hoo; simp; exact hcov
+    · split at hoo
+      · subst hoo; simp
+      · have hs := vmCall_spec hoo
+        have hown := vmCall_own hoo
+        obtain ⟨ok, cov⟩ := hs
+        refine ⟨ok.rid, ok.rold, ok.arid, ok.runtime, fun he => ⟨?_, ?_⟩⟩
+        · have := ok.sum he
+          rw [hown] at this
+          omega
+        · simpa using cov he
+  obtain ⟨k1, k2, k3, k4, k5⟩ := key
+  have sf := subBalance_facts o.rcv o.fee
+  unfold finishOwn at hl ⊢
+  simp only [] at hl ⊢
+  split
+  · rfl
+  · rename_i herr
+    rw [herr] at hl
+    simp only [] at hl
+    cases hlk : o.leak
+    · have hw := k4 herr hlk
+      rw [hw]
+      refine runtimeBranch_own_total ?_
+      rw [sf.2.1, sf.1, k1, k2]; exact ho
+    · rw [hlk] at hl
+      have := runtimeBranch_own_leak hl
+      rw [this.1, this.2]
+  · rename_i herr
+    obtain ⟨hsum, hfee⟩ := k5 herr
+    rw [(successBranch_w _ _ _ _ _ _ _).1, (successBranch_w _ _ _ _ _ _ _).2.1]
+    simp only [ne_eq, not_true_eq_false, if_false]
+    rw [sf.1, k1]
+    have h1 := total_put o.w acc.id ((o.rcv.subBalance o.fee).cur.setNonce tx.nonce)
+    have hb2 : o.w.bal acc.id = w.bal acc.id := by simp [World.bal, k3]
+    have := sf.2.2.2.2 hfee
+    rw [setNonce_bal, this] at h1
+    omega
+
 /-! ### what the validation steps guarantee -/
 
 theorem validateSender_cov {c : Ctx} {tx : Tx} {st : Acct} (h : validateSender c tx st = none)
@@ -355,29 +491,44 @@ theorem executeTx_total' {c : Ctx} {w : World} {bp : Nat} {tx : Tx} {res : Resul
               · rename_i hcode
                 split at h
                 · subst h; rfl
-                · subst h
-                  -- CheckFeeDelegation: the recipient is a contract; the sender of a tx to itself is not:
-                  -- two different accounts
-                  have hne : (w.getCopy tx.sender).id ≠ rcv.id := by
-                    rw [getCopy_id]
-                    intro e
-                    cases hr : tx.recipient with
-                    | none =>
-                      have := m4 hr
-                      exact hsig.fresh hr (by rw [← this, ← e])
-                    | some r =>
-                      have h1 := (m3 r hr).1
-                      have h2 : rcv.cur.code = true := by simpa using hcode
-                      rw [m1, ← e, hsig.noCode (by rw [hr, ← h1, ← e])] at h2
-                      cases h2
-                  exact finishVm_total hsc hso m1 m2 hne (by simp) (fun _ => base_le_maxFee hmf) hl
+                · split at h
+                  · -- `receiver = sender`: one record
+                    rename_i hown
+                    subst h
+                    have hrs : tx.recipient = some tx.sender := by simp at hown; exact hown.1
+                    have hrid : rcv.id = tx.sender := (m3 _ hrs).1
+                    refine finishOwn_total hsc hso ?_ hl
+                    have := base_le_maxFee hmf
+                    rw [m1, hrid] at this
+                    simpa using this
+                  · rename_i hown
+                    subst h
+                    -- otherwise two different accounts
+                    have hne : (w.getCopy tx.sender).id ≠ rcv.id := by
+                      rw [getCopy_id]
+                      intro e
+                      cases hr : tx.recipient with
+                      | none =>
+                        have := m4 hr
+                        exact hsig.fresh hr (by rw [← this, ← e])
+                      | some r =>
+                        have h1 := (m3 r hr).1
+                        apply hown
+                        simp [hr, ← h1, ← e, hty]
+                    exact finishVm_total hsc hso m1 m2 hne (by simp) (fun _ => base_le_maxFee hmf) hl
           · -- NORMAL / TRANSFER / CALL / DEPLOY / REDEPLOY
             rename_i hng hnf
-            subst h
             have hty : tx.type = .normal ∨ tx.type = .redeploy ∨ tx.type = .transfer ∨ tx.type = .call ∨ tx.type = .deploy := by
               cases ht : tx.type <;> simp_all
             have hcov := validateSender_cov hvs hty
             simp only [getCopy_cur] at hcov
+            split at h
+            · -- `receiver = sender`: one record
+              subst h
+              refine finishOwn_total hsc hso ?_ hl
+              simp only [getCopy_cur]; omega
+            rename_i hown
+            subst h
             by_cases hne : (w.getCopy tx.sender).id = rcv.id
             · -- the sender pays itself
               refine finishVm_self_total hsc hso m2 hne ?_ ?_ ?_
@@ -390,7 +541,13 @@ theorem executeTx_total' {c : Ctx} {w : World} {bp : Nat} {tx : Tx} {res : Resul
                 | some r =>
                   have h1 := (m3 r hr).1
                   rw [getCopy_id] at hne
-                  exact hsig.noCode (by rw [hr, hne, h1])
+                  have hrs : tx.recipient = some tx.sender := by rw [hr, hne, h1]
+                  -- not `receiver = sender`, yet the recipient is the sender: a REDEPLOY
+                  have hrd : tx.type = .redeploy := by
+                    by_cases hq : tx.type = .redeploy
+                    · exact hq
+                    · exact absurd (by simp [hrs, hq]) hown
+                  exact hsig.noCode hrd hrs
               · cases hr : tx.recipient with
                 | none =>
                   have := m4 hr
